@@ -53,4 +53,4 @@ package frame
 //@   loop 0 modifies frames
 //@   # proof hints (each is proved where it stands, then used): the appended entry is the last one of
 //@   # its node's frame, and earlier entries of that frame keep their positions
-//@   assert_after "frames[nodeKey] = frames[nodeKey].Append(key, ser)" __in(frames, nodeKey) && len(frames[nodeKey].RawKeys()) > 0 && frames[nodeKey].RawKeys()[len(frames[nodeKey].RawKeys())-1] == key && __eq(frames[nodeKey].RawSeries()[len(frames[nodeKey].RawKeys())-1], ser)
+//@   hint_after "frames[nodeKey] = frames[nodeKey].Append(key, ser)" __in(frames, nodeKey) && len(frames[nodeKey].RawKeys()) > 0 && frames[nodeKey].RawKeys()[len(frames[nodeKey].RawKeys())-1] == key && __eq(frames[nodeKey].RawSeries()[len(frames[nodeKey].RawKeys())-1], ser)
